@@ -27,7 +27,7 @@ ASSUMPTIONS = [
     'hierarchies CPython rejects and root modules named like summary pages are outside the alphabet',
 ]
 FLOOR = {'quick': 300, 'thorough': 1500}
-SPACE = {'quick': 'histories <= 3 over 23 events x 2 schedules', 'thorough': 'histories <= 4 over 23 events x 2 schedules'}
+SPACE = {'quick': 'histories <= 3 over 32 events x 2 schedules', 'thorough': 'histories <= 4 over 32 events x 2 schedules'}
 
 EVENTS: Dict[str, List[Tuple[str, str]]] = {
     'defC':   [('a', 'class X:\n    def m(self): pass\n')],
@@ -50,6 +50,18 @@ EVENTS: Dict[str, List[Tuple[str, str]]] = {
     'rootname': [('a', 'class p:\n    "a class whose short name is the name of the root package"\n    def m(self): pass\n')],
     'modname': [('b', 'class a:\n    "a class whose short name is the name of a sibling module"\nclass b:\n    class b:\n        pass\n')],
     'zope':   [('b', 'from zope.interface import Interface, implementer\nclass IX(Interface):\n    def im(): pass\n@implementer(IX)\nclass W: pass\n')],
+    # definitions in the package __init__ named like the package's own sub-modules; definitions inside control-flow blocks of a function body
+    'pkgdef-modname': [('p', 'def a():\n    "function named like sub-module a"\nclass b:\n    "class named like sub-module b"\n    def k(self): pass\n')],
+    'pkgvar-modname': [('p', 'a = 1\n"variable named like sub-module a"\n')],
+    'fn-inner-in-block': [('a', 'def F(c):\n    if c:\n        def inner(): pass\n    try:\n        class IC:\n            def m(self): pass\n    except Exception:\n        pass\n'
+                                '    with c:\n        async def ai(): pass\n    for _ in c:\n        v = 1\n        def loopf(): pass\n    while c:\n        def wf(): pass\n'
+                                'class H:\n    def meth(self):\n        if self:\n            def cb(): pass\n            class Loc: pass\n')],
+    'dupmeth': [('a', 'class X:\n    def m(self): "first"\n    def m(self): "second"\n    class I:\n        v = 1\n    class I:\n        v = 2\n')],
+    'badmro': [('a', 'class Q1: pass\nclass Q2(Q1): pass\nclass Q3(Q1, Q2): pass\nclass Q4(Q3): pass\n')],
+    'move-module': [('b', 'from p import a as amod\n__all__ = ["amod"]\n')],
+    'move-onto-modname': [('b', 'class a:\n    "class named like sub-module a"\n    def k(self): pass\n'), ('p', 'from .b import a\n__all__ = ["a"]\n')],
+    'move-method': [('a', 'class X:\n    def mm(self): pass\nmm2 = X.mm\n'), ('b', 'from .a import mm2\n__all__ = ["mm2"]\n')],
+    'pkgdoc-var-modname': [('p:top', '"""\nPackage.\n\n@var a: documented like a variable\n@ivar b: also\n"""\n')],
     # interfaces that are not class statements: created by calling an InterfaceClass (subclass); declared through every declaration form
     'zopecall': [('b', 'from zope.interface import implementer\nfrom zope.interface.interface import InterfaceClass\nclass MyIC(InterfaceClass): pass\nIC1 = InterfaceClass("IC1")\nIC2 = MyIC("IC2")\n'
                        '@implementer(IC1, IC2)\nclass W2: pass\nclass IC3(IC2):\n    def im3(): pass\n@implementer(IC3)\nclass W3(W2): pass\n')],
@@ -64,10 +76,15 @@ ORDERS = [('a', 'b'), ('b', 'a')]
 
 def program(hist: Sequence[str]) -> Dict[str, str]:
     src = {'p': '', 'a': '', 'b': ''}
+    top = {'p': '', 'a': '', 'b': ''}
     for e in hist:
         for m, s in EVENTS[e]:
-            src[m] += s
-    return src
+            if m.endswith(':top'):
+                if s not in top[m[:-4]]:
+                    top[m[:-4]] += s        # text that has to open the module (its docstring)
+            else:
+                src[m] += s
+    return {m: top[m] + src[m] for m in src}
 
 
 def build(src: Dict[str, str], order: Sequence[str]) -> Any:
@@ -80,12 +97,34 @@ def build(src: Dict[str, str], order: Sequence[str]) -> Any:
     return s
 
 
+def inside_replaced_module(o: Any) -> bool:
+    """o lies inside a module whose entry in its package was taken over by an object that is not a module (pinned behaviour of reparent for a
+    re-export under the name of a sub-module; KNOWN_FINDINGS C11/C02): everything inside such a module is cut off from the tree"""
+    from pydoctor import model
+    while o is not None and o.parent is not None:
+        if isinstance(o, model.Module):
+            cur = o.parent.contents.get(o.name)
+            if cur is not o and cur is not None and not isinstance(cur, model.Module):
+                return True
+        o = o.parent
+    return False
+
+
 def invariants(s: Any) -> List[str]:
     from pydoctor import model
-    bad: List[str] = []
+
+    class Bad(list):      # type: ignore[type-arg]
+        def append(self, item: str) -> None:   # tag the invariant with the structural cause when the object at fault is known
+            o = self.current
+            list.append(self, item + ('@inside-replaced-module' if o is not None and inside_replaced_module(o) else ''))
+        current: Any = None
+    bad = Bad()
     K = model.DocumentableKind
     seen_ids: Dict[int, str] = {}
     for k, o in s.allobjects.items():
+        bad.current = o
+        if isinstance(o, model.Module) and o.kind not in (K.MODULE, K.PACKAGE):
+            bad.append('I5-module-kind')
         if o.fullName() != k:
             bad.append('I1-registered-under-other-name')
         if id(o) in seen_ids:
@@ -151,7 +190,10 @@ def invariants(s: Any) -> List[str]:
                 if o.fullName() not in names:
                     bad.append('I8-implementedby-without-implements')
 
+    bad.current = None
+
     def walk(o: Any) -> None:
+        bad.current = o
         if s.allobjects.get(o.fullName()) is not o:
             bad.append('I2-reachable-unregistered')
         for name, c in o.contents.items():
@@ -162,6 +204,7 @@ def invariants(s: Any) -> List[str]:
             walk(c)
     for r in s.rootobjects:
         walk(r)
+    bad.current = None
     urls = collections.Counter(o.url for o in s.allobjects.values() if isinstance(o, (model.Module, model.Class)))
     if any(v > 1 for v in urls.values()):
         bad.append('I9-page-name-clash')
@@ -201,7 +244,7 @@ def make_violations(hist: Sequence[str], order: Sequence[str], bad: Sequence[str
         mh = minimise(hist, order, inv)
         other = ORDERS[1] if tuple(order) == ORDERS[0] else ORDERS[0]
         dep = '' if inv in check_history(mh, other)[0] else f'/only-order-{"".join(order)}'
-        sig = f'{inv}/{">".join(mh)}{dep}'
+        sig = f'{inv}/{">".join(mh)}{dep}' if '@' not in inv else inv.replace('@', '/')
         out.append(core.violation(sig, f'history {list(hist)} (minimal: {mh}) analysed in order p,{",".join(order)} breaks {inv}',
                                   {'kind': 'history', 'hist': list(hist), 'order': list(order)}))
     return out
